@@ -1,7 +1,7 @@
 (** C06 -- Parser stages expose exactly the fields of a line and never drop it.  Statements only (proofs:
     Proofs/StagesP.v).  The text->document step of jx / go-logfmt is an oracle table [o]: the theorems hold for
     every content of the table, i.e. whatever document the library reports for a line. *)
-From LogQLV Require Import Base.Bytes Base.LMap Model.Tables Model.KeyToLabel Model.Stages Proofs.LMapP Proofs.StagesP.
+From LogQLV Require Import Base.Bytes Base.LMap Model.Tables Model.KeyToLabel Model.Stages Proofs.LMapP Proofs.StagesP Model.JsonPath Proofs.JsonPathP Model.PatternParse Proofs.PatternParseP.
 
 (** json, logfmt, regexp, pattern, unpack never remove a line; all but unpack never change it; unpack either keeps
     it or replaces it by the _entry string of the packed object *)
@@ -68,6 +68,31 @@ Theorem capture_is_first_occurrence : forall sep s a, cut_before sep s = (a, tru
   (exists rest, s = a ++ sep ++ rest) /\ forall n, (n < length a)%nat -> is_prefix sep (skipn n s) = false.
 Proof. intros sep s a H. split; [eapply cut_before_sound; eauto|eapply cut_before_first; eauto]. Qed.
 Print Assumptions pattern_two_captures.
+
+(** the path-expression parser (jsonexpr.Parse, Model/JsonPath.v): every expression written as a sequence of .field,
+    ["quoted key"] (any printable ASCII, quote and backslash escaped) and [index] items denotes exactly those selectors *)
+Theorem path_expression_roundtrip : forall l : list pitem, l <> [] -> Forall wf_item l ->
+  parse_path (print_path l) = PathOk (map sel_of l).
+Proof. exact path_roundtrip_lemma. Qed.
+Print Assumptions path_expression_roundtrip.
+
+Example path_expression_example :
+  parse_path (print_path [PField ["a"%byte]; PQuoted ["k"%byte; "\"%byte]; PIndex ["0"%byte; "7"%byte]]) =
+    PathOk [JKey ["a"%byte]; JKey ["k"%byte; "\"%byte]; JIdx 7].
+Proof. vm_compute. reflexivity. Qed.
+
+(** the pattern parser (logqlpattern.Parse, Model/PatternParse.v): a pattern written as alternating literals (non-empty, without
+    '<') and <name> captures, with at least one capture and no name used twice (`_` excepted), denotes exactly those parts *)
+Theorem pattern_roundtrip : forall ps : list ppart,
+  Forall wf_part ps -> alternating ps -> existsb is_cap ps = true -> dup_capture ps [] = false ->
+  parse_pattern (print_pattern ps) = Some ps.
+Proof. exact pattern_roundtrip_lemma. Qed.
+Print Assumptions pattern_roundtrip.
+
+Example pattern_example :
+  parse_pattern (print_pattern [PCap ["i"%byte; "p"%byte]; PLit [" "%byte; "-"%byte; " "%byte]; PCap ["_"%byte]; PLit ["]"%byte]]) =
+    Some [PCap ["i"%byte; "p"%byte]; PLit [" "%byte; "-"%byte; " "%byte]; PCap ["_"%byte]; PLit ["]"%byte]].
+Proof. vm_compute. reflexivity. Qed.
 
 Example c06_nonvacuous :
   let o := {| o_json := [(["{"%byte], JDoc (JObj [(["a";"."; "b"]%byte, JStr ["1"%byte]); (["a";"_"; "b"]%byte, JNull); (["n"%byte], JNum ["7"%byte] ["7"%byte])] [] []))];
